@@ -588,7 +588,7 @@ def general_program(draw, cfg, max_steps=30, extra=(), disable=()):
             feats.add('zone')
             local_defined = set()
         elif choice == 'align':
-            p = d(st.sampled_from([None, 2, 4, 8, 16, 3, 1]))
+            p = d(st.sampled_from([None, 2, 4, 8, 16, 3, 1, 6, 12, 10]))
             page = b.isa.page_size if p is None else p
             cur = b.cursor()
             if -(-cur // page) * page + 8 <= cur + room:
